@@ -141,9 +141,10 @@ def _find_first_common_next_vertex_in_edges__impl(
                     if len(map_of_visited) <= i:
                         map_of_visited.append({})
                     if e.target in map_of_visited[i]:
-                        # We already visited this before on this path...
+                        # We already visited this before on this path... (the edge that led there first is kept)
                         should_remove.add(e)
-                    map_of_visited[i][e.target] = e.index
+                    else:
+                        map_of_visited[i][e.target] = e.index
             for e in should_remove:
                 e_set.remove(e)
             if len(e_set) == 0:
